@@ -54,6 +54,8 @@ class Funcs:
         self.A = np.array([arr(r.get("a"), n) for r in rows]).reshape((self.m, n))
         self.b = np.array([float(r.get("b", 0.0)) for r in rows])
         self.ccub = np.array([arr(r.get("cub"), n) for r in rows]).reshape((self.m, n))
+        # positive-part cubic: sum_j pcub_j * max(x_j, 0)^3  (twice continuously differentiable, locally linear for x_j <= 0)
+        self.cpcub = np.array([arr(r.get("pcub"), n) for r in rows]).reshape((self.m, n))
         self.cons_lb = np.array([_unj(r["lb"]) for r in rows], dtype=float)
         self.cons_ub = np.array([_unj(r["ub"]) for r in rows], dtype=float)
         self.var_lb = arr(spec["var_lb"], n)
@@ -127,23 +129,23 @@ class Funcs:
         x = np.asarray(x, dtype=float)
         out = np.zeros((self.m,))
         for i in range(self.m):
-            out[i] = 0.5 * x.dot(self.Q[i].dot(x)) + self.A[i].dot(x) + self.b[i] + self.ccub[i].dot(x ** 3)
+            out[i] = 0.5 * x.dot(self.Q[i].dot(x)) + self.A[i].dot(x) + self.b[i] + self.ccub[i].dot(x ** 3) + self.cpcub[i].dot(np.maximum(x, 0.0) ** 3)
         return out
 
     def jac(self, x):
         x = np.asarray(x, dtype=float)
         J = np.zeros((self.m, self.n))
         for i in range(self.m):
-            J[i] = self.Q[i].dot(x) + self.A[i] + 3.0 * self.ccub[i] * x ** 2
+            J[i] = self.Q[i].dot(x) + self.A[i] + 3.0 * self.ccub[i] * x ** 2 + 3.0 * self.cpcub[i] * np.maximum(x, 0.0) ** 2
         return J
 
     def hessc(self, x, y):
         x = np.asarray(x, dtype=float)
         Hm = np.zeros((self.n, self.n))
         for i in range(self.m):
-            if not self.hasQ[i] and not self.ccub[i].any():
+            if not self.hasQ[i] and not self.ccub[i].any() and not self.cpcub[i].any():
                 continue  # affine row: contributes nothing, whatever the multiplier (as a hand-written Hessian would)
-            Hm = Hm + y[i] * (self.Q[i] + np.diag(6.0 * self.ccub[i] * x))
+            Hm = Hm + y[i] * (self.Q[i] + np.diag(6.0 * self.ccub[i] * x + 6.0 * self.cpcub[i] * np.maximum(x, 0.0)))
         return Hm
 
     def hessL(self, x, y):
@@ -153,7 +155,7 @@ class Funcs:
     def jac_pattern(self):
         P = np.zeros((self.m, self.n), dtype=bool)
         for i in range(self.m):
-            P[i] = (self.A[i] != 0) | (np.abs(self.Q[i]).sum(axis=0) != 0) | (self.ccub[i] != 0)
+            P[i] = (self.A[i] != 0) | (np.abs(self.Q[i]).sum(axis=0) != 0) | (self.ccub[i] != 0) | (self.cpcub[i] != 0)
         return P
 
     def hess_pattern(self):
@@ -168,7 +170,7 @@ class Funcs:
             for i in range(self.n - 1):
                 P[i, i] = P[i + 1, i + 1] = P[i, i + 1] = P[i + 1, i] = True
         for i in range(self.m):
-            P = P | (self.Q[i] != 0) | np.diag(self.ccub[i] != 0)
+            P = P | (self.Q[i] != 0) | np.diag((self.ccub[i] != 0) | (self.cpcub[i] != 0))
         return P
 
 
